@@ -225,6 +225,77 @@ func runC12(a *Analyzer, r *Results) {
 		}
 		r.Stats["C12.scope_calls."+shortName(fn)] = nScope
 	}
+	// ---- R1.cache: messages at rest in the future cache are untrusted bytes too; their replay must not unwind a loop arm
+	{
+		fn := a.P.Func(idE2)
+		c := a.NewFCtx(fn, a.EntryEnv(fn, nil), 0)
+		cache := Field(This("rawmessagesfilter.RawMessageFilter"), "futureCache")
+		// is the drain reachable from an event loop without passing a recover boundary?
+		exposed := false
+		for _, id := range loops {
+			lf := a.P.Func(id)
+			seen := map[*ssa.Function]bool{}
+			var visit func(f *ssa.Function) bool
+			visit = func(f *ssa.Function) bool {
+				if f == fn {
+					return true
+				}
+				if seen[f] || f.Blocks == nil || !inLibraryScope(funcPkgPath(f)) {
+					return false
+				}
+				seen[f] = true
+				if has, _ := recoverBoundary(f); has && f != lf {
+					return false
+				}
+				for _, g := range a.calleesOf(f) {
+					if visit(g) {
+						return true
+					}
+				}
+				return false
+			}
+			if visit(lf) {
+				exposed = true
+			}
+		}
+		n := 0
+		for _, b := range fn.Blocks {
+			for _, in := range b.Instrs {
+				ci, ok := in.(ssa.CallInstruction)
+				if !ok || isLoggingCall(ci.Common()) {
+					continue
+				}
+				if _, isB := ci.Common().Value.(*ssa.Builtin); isB {
+					continue
+				}
+				dep := false
+				for _, arg := range ci.Common().Args {
+					if strings.Contains(c.Term(arg).Key(), cache.Key()) && c.Term(arg).Op != "field" {
+						dep = true
+					}
+				}
+				if !dep {
+					continue
+				}
+				n++
+				var callees []*ssa.Function
+				if nd := a.P.CHA().Nodes[fn]; nd != nil {
+					for _, e := range nd.Out {
+						if e.Site == ci {
+							callees = append(callees, e.Callee.Func)
+						}
+					}
+				}
+				bad := a.unprotectedDecoders(callees)
+				why := ""
+				if len(bad) > 0 && exposed {
+					why = "the drain is reachable from an event loop arm without a recover boundary, and the replayed message reaches decoders unprotected: " + bad[0]
+				}
+				r.Check("R1.cache", pr, "cached (future-height) messages are untrusted bytes decoded lazily: their replay reaches decoders only through a recovering function, unless every way into the drain already passes one", "ConsumeCacheMessages|"+calleeLabel(ci.Common()), a.P.InstrPos(in), len(bad) == 0 || !exposed, why, "R")
+			}
+		}
+		r.Stats["C12.cache_replay_calls"] = n
+	}
 	// ---- R1 APIs
 	for _, id := range []string{"(*leanhelix.WorkerLoop).ValidateBlockConsensus", "(*leanhelix.MainLoop).ValidateBlockConsensus", "leanhelix.GetMemberIdsFromBlockProof"} {
 		fn := a.P.Func(id)
